@@ -53,5 +53,10 @@ type subdomain struct {
 }
 
 func (s subdomain) match(o string) bool {
-	return len(o) >= len(s.prefix)+len(s.suffix) && strings.HasPrefix(o, s.prefix) && strings.HasSuffix(o, s.suffix)
+	if len(o) <= len(s.prefix)+len(s.suffix) || !strings.HasPrefix(o, s.prefix) || !strings.HasSuffix(o, s.suffix) {
+		return false
+	}
+	// the wildcard stands for one or more non-empty labels
+	labels := o[len(s.prefix) : len(o)-len(s.suffix)]
+	return labels[0] != '.' && labels[len(labels)-1] != '.' && !strings.Contains(labels, "..")
 }
